@@ -734,3 +734,38 @@ package kapacitor
 //@   ensures !gfi(bp, mutated, bool)
 //@   ensures called(ShallowCopy) && called(addPoint) && callarg(addPoint, 0) == callresult(ShallowCopy, 0)
 
+
+// ---------------------------------------------------------------- influxql.go (C11)
+
+// Which typed reduce context serves (method, field kind): a deterministic function (trusted);
+// it fails for kinds the aggregation is not defined on.
+//@ func determineReduceContextCreateFn
+//@   trusted
+//@   pure
+//@   ensures result1 == nil ==> result0 != nil
+
+// "field type changing between batches": the node caches the constructor for the current field
+// kind. Cache invariant: a cached constructor is the one for the cached kind.
+//@ spec cfnOK(n *InfluxQLNode) bool = n.createFn != nil ==>
+//@     first(determineReduceContextCreateFn(n.n.Method, n.currentKind, n.n.ReduceCreater)) == n.createFn
+//@     && second(determineReduceContextCreateFn(n.n.Method, n.currentKind, n.n.ReduceCreater)) == nil
+
+// getCreateFn(kind) answers for THIS kind whatever was asked before: the constructor for
+// (method, kind), or an error when the aggregation is not defined on that kind.
+//@ func (*InfluxQLNode).getCreateFn
+//@   props C11
+//@   requires n != nil && n.n != nil && cfnOK(n)
+//@   modifies n.currentKind, n.createFn
+//@   ensures [cache-consistent] cfnOK(n)
+//@   ensures [answer-for-this-kind] result1 == nil ==> result0 != nil
+//@       && result0 == first(determineReduceContextCreateFn(n.n.Method, kind, n.n.ReduceCreater))
+//@       && second(determineReduceContextCreateFn(n.n.Method, kind, n.n.ReduceCreater)) == nil
+//@   ensures [undefined-kind-is-an-error] second(determineReduceContextCreateFn(n.n.Method, kind, n.n.ReduceCreater)) != nil ==> result1 != nil
+
+// The kind of the aggregated field in this point: an error (not a panic) for a missing field and
+// for a field without a value.
+//@ func (*influxqlGroup).getFieldKind
+//@   props C11 C05
+//@   requires g != nil
+//@   modifies nothing
+//@   ensures !has(fields, g.bc.field) ==> result1 != nil
